@@ -106,6 +106,21 @@ func runC14(o *hx.Out, r *hx.Rand, thorough bool) {
 				map[string]interface{}{"code": c, "ctx_ended": ended, "http": rec.Code, "x-grpc-status": hdr})
 		}
 	}
+	// 2b. the 499 rule looks at the REQUEST's context, not at the handler's (which also ends
+	// when the GRPC-Timeout deadline passes while the client is still connected)
+	waitSvc := &hx.Svc{Unary: func(ctx context.Context, req *hx.Msg) (*hx.Msg, error) { <-ctx.Done(); return nil, ret }}
+	hw := httpgrpc.HandleMethod(waitSvc, hx.SvcName, &desc.Methods[0], nil)
+	for _, c := range []uint32{1, 4, 2, 14} {
+		ret = codeErr{c}
+		req := httptest.NewRequest("POST", "/verif.Svc/U", bytes.NewReader(nil))
+		req.Header.Set("Content-Type", httpgrpc.UnaryRpcContentType_V1)
+		req.Header.Set("GRPC-Timeout", "1m")
+		rec := httptest.NewRecorder()
+		hw(rec, req)
+		hdr := rec.Header().Get("X-GRPC-Status")
+		o.Case("render_server_deadline", fmt.Sprintf("Render %d false %d %s", c, rec.Code, hx.Str(strings.SplitN(hdr, ":", 2)[0])),
+			map[string]interface{}{"code": c, "request_ctx_ended": false, "grpc-timeout": "1m (expired in the handler)", "http": rec.Code, "x-grpc-status": hdr})
+	}
 	// 3. the real client on synthetic replies
 	base, _ := url.Parse("http://synthetic.invalid/")
 	call := func(rt http.RoundTripper) error {
